@@ -21,6 +21,8 @@ def run(ctx, res):
     key_rule(ctx, res)
     compound_rule(ctx, res)
     de_rule(ctx, res)
+    res.rules_run.append("C16.access (the map / sequence access objects hand every member to the seed, in order, null members included, then report the end)")
+    access_rule(ctx, res)
     mapkey_rule(ctx, res)
     enum_rule(ctx, res)
     # maps: SerializeMap remembers the key and inserts (key, value) in order; only an *empty* object whose first key is the
@@ -528,6 +530,26 @@ def de_rule(ctx, res, only=None, rule="C16.de"):
     res.floor(rule, "deserializer_cases", 50 if only is None else 6 * len(only))
     # visit_array / visit_object: the access object is built from the value's own items, and everything must be consumed
     for fn, acc in (("visit_array", "ArrayDeserializer"), ("visit_object", "ObjectDeserializer")):
+        # an empty container is still a sequence / map for the visitor (not a unit)
+        try:
+            inst = shape.find_inst(P, r"^json_syntax::serde::de::%s::<'_, serde_roots::Probe>$" % fn)
+            sh = shape.Shape(P)
+            sh.cut(r"^<serde_roots::Probe as .*Visitor<'_>>::visit_", "visit", ret=lambda it, st, c, a: Agg(shape.ret_ty(it, c), 0, (Top(None, "visited"),)))
+            sh.cut(r"de::Error>::invalid_(length|type|value)$", "error", ret=lambda it, st, c, a: Top(shape.ret_ty(it, c), "the-error"))
+            empty = sh.st.new_obj(AVec((), "array" if fn == "visit_array" else "entries"))
+            if fn == "visit_array":
+                arg0 = empty
+            else:
+                oty0 = [t for t in P.types if t.get("name") == "json_syntax::Object" and t["k"] == "adt"][0]
+                arg0 = Agg(oty0["id"], 0, (empty, Top(None, "indexes")))
+            outs0 = sh.run(inst, [arg0, Agg(None, 0, ())])
+            vs0 = [[VISIT.search(e[3]).group(1) for e in shape.events(o) if e[0] == "visit"] for o in outs0]
+            want0 = "visit_seq" if fn == "visit_array" else "visit_map"
+            ok0 = len(outs0) == 1 and vs0 == [[want0]] and isinstance(outs0[0].outcome[1], Agg) and outs0[0].outcome[1].variant == 0
+            check(res, ok0, rule, "%s/%s/empty" % (rule, fn), "%s on an empty container must still call %s once and return its result; calls %r" % (fn, want0, vs0),
+                  sample={"helper": fn, "empty": want0})
+        except Undecided as e:
+            res.violation(rule, "%s/%s/empty/undecided" % (rule, fn), "while interpreting: %s" % e)
         try:
             inst = shape.find_inst(P, r"^json_syntax::serde::de::%s::<'_, serde_roots::Probe>$" % fn)
             sh = shape.Shape(P)
@@ -555,6 +577,76 @@ def de_rule(ctx, res, only=None, rule="C16.de"):
             check(res, ok, rule, "%s/%s" % (rule, fn), "%s must hand the visitor an access over the value's own items and reject leftovers" % fn, sample={"helper": fn, "access": acc, "leftovers": "rejected"})
         except Undecided as e:
             res.violation(rule, "%s/%s/undecided" % (rule, fn), "while interpreting: %s" % e)
+
+
+def access_rule(ctx, res, rule="C16.access"):
+    """ObjectDeserializer / ArrayDeserializer driven by hand over two members, the first of which is `null`: every member is
+    handed to the seed, in order (key then value for an object), then the access reports the end."""
+    P = ctx.P
+    VT = value_ty(P)
+    vn = [v["name"] for v in VT["variants"]]
+    try:
+        et = [t for t in P.types if t.get("name") == "json_syntax::object::Entry" and t["k"] == "adt" and "SmallString" in t["s"] and "Mapped" not in t["s"]][0]
+        nk = shape.find_inst(P, r"^<json_syntax::serde::de::ObjectDeserializer as .*MapAccess<'_>>::next_key_seed::<serde_roots::SeedAny>$")
+        nv = shape.find_inst(P, r"^<json_syntax::serde::de::ObjectDeserializer as .*MapAccess<'_>>::next_value_seed::<serde_roots::SeedAny>$")
+        ne = shape.find_inst(P, r"^<json_syntax::serde::de::ArrayDeserializer as .*SeqAccess<'_>>::next_element_seed::<serde_roots::SeedAny>$")
+        for what, steps in (("object", [nk, nv, nk, nv, nk]), ("array", [ne, ne, ne])):
+            sh = shape.Shape(P)
+            sh.cut(r"^<serde_roots::SeedAny as .*DeserializeSeed<'_>>::deserialize::<", "seed", ret=lambda it, st, c, a: Agg(shape.ret_ty(it, c), 0, (Top(None, "seeded"),)))
+            st = sh.st
+            null = Agg(VT["id"], vn.index("Null"), ())
+            other = Top(VT["id"], "value1")
+            if what == "object":
+                enames = [f["name"] for f in et["variants"][0]["fields"]]
+                mk = lambda k, v: Agg(et["id"], 0, tuple(k if n == "key" else v for n in enames))
+                items = (mk(Top(None, "key0"), null), mk(Top(None, "key1"), other))
+            else:
+                items = (null, other)
+            vec = st.new_obj(AVec(items, "members"))
+            aty = P.types[steps[0]["locals"][1]]["to"]
+            flds = P.types[aty]["variants"][0]["fields"]
+            vals = []
+            for f in flds:
+                ts = P.types[f["ty"]]["s"]
+                if "IntoIter" in ts:
+                    vals.append(st.new_obj(AIter(vec.id, 0, 2, "owning")))
+                elif ts.startswith("std::option::Option"):
+                    vals.append(Agg(f["ty"], 0, ()))
+                else:
+                    raise Undecided("unexpected field %s of the access object" % ts)
+            cell = st.new_obj(Agg(aty, 0, tuple(vals)))
+            me = Ref(("H", cell.id), ())
+            got = []
+            cur = st
+            for inst in steps:
+                from ..absint import State as _State
+                nxt_ = _State()  # a finished state cannot be resumed: continue from its heap
+                nxt_.heap = dict(cur.heap)
+                nxt_.ctr = dict(cur.ctr)
+                cur = nxt_
+                n0 = 0
+                sh.it.push_frame(cur, inst["id"], [me, Agg(None, 0, ())], None, None)
+                outs = sh.it.run(cur)
+                # (dropping a key forks on inline / heap storage of the small string: the paths must agree on everything observed)
+                sig = set((o.outcome[0], repr(o.outcome[1]), repr([e[1][1:] for e in o.events if e[0] == "seed"])) for o in outs)
+                if len(sig) != 1 or outs[0].outcome[0] != "return":
+                    raise Undecided("%s access: %d paths that disagree (%s)" % (what, len(outs), [o.outcome[0] for o in outs][:3]))
+                cur = outs[0]
+                rv = cur.outcome[1]
+                seeds = [e for e in cur.events[n0:] if e[0] == "seed"]
+                if not seeds:
+                    got.append("end" if (isinstance(rv, Agg) and rv.variant == 0) else "error")
+                else:
+                    a0 = seeds[-1][1][1]
+                    a0 = a0.fields[0] if isinstance(a0, Agg) and a0.ty is not None and "MapKeyDeserializer" in P.types[a0.ty]["s"] else a0
+                    got.append(a0.tag if isinstance(a0, Top) else ("null" if a0 == null else repr(a0)[:40]))
+            want = ["key0", "null", "key1", "value1", "end"] if what == "object" else ["null", "value1", "end"]
+            check(res, got == want, rule, "%s/%s" % (rule, what), "the %s access must hand every member to the seed in order (null members included) and then report the end; it hands %r, expected %r" % (what, got, want),
+                  sample={"access": what, "yields": [str(x) for x in got]})
+            res.count("access_cases")
+    except Undecided as e:
+        res.violation(rule, rule + "/undecided", "while interpreting: %s" % e)
+    res.floor(rule, "access_cases", 2)
 
 
 # ---- map keys ---------------------------------------------------------------------------------------------------------------------------------
@@ -620,7 +712,24 @@ def mapkey_rule(ctx, res):
             res.count("mapkey_cases")
         except Undecided as e:
             res.violation(rule, key + "/undecided", "while interpreting: %s" % e)
-    res.floor(rule, "mapkey_cases", 22)
+    # everything else (deserialize_any and what is forwarded to it): the key is offered as the string it is, whatever it looks like
+    try:
+        key = "%s/deserialize_any" % rule
+        inst = shape.find_inst(P, r"^<json_syntax::serde::de::MapKeyDeserializer as .*Deserializer<'_>>::deserialize_any::<serde_roots::Probe>$")
+        sh = shape.Shape(P)
+        sh.cut(r"^<serde_roots::Probe as .*Visitor<'_>>::visit_", "visit", ret=lambda it, st, c, a: Agg(shape.ret_ty(it, c), 0, (Top(None, "visited"),)))
+        sh.cut(r"^core::str::<impl str>::parse::<", "parse", ret=lambda it, st, c, a: Agg(shape.ret_ty(it, c), 0, (Top(None, "parsed"),)))
+        sh.cut(r"Deref>::deref$", "deref", ret=lambda it, st, c, a: a[0])
+        keytok = Top(None, "the-key")
+        outs = sh.run(inst, [Agg(inst["locals"][1], 0, (keytok,)), Agg(None, 0, ())])
+        vs = [[VISIT.search(e[3]).group(1) for e in shape.events(o) if e[0] == "visit"] for o in outs]
+        ok = len(outs) == 1 and outs[0].outcome[0] == "return" and vs[0] in (["visit_string"], ["visit_str"], ["visit_borrowed_str"])
+        ok = ok and not [e for e in shape.events(outs[0]) if e[0] == "parse"]
+        check(res, ok, rule, key, "deserialize_any on a map key must offer the key as a string, unconditionally; calls %r" % (vs,), sample={"key_method": "deserialize_any", "visits": "visit_string"})
+        res.count("mapkey_cases")
+    except Undecided as e:
+        res.violation(rule, "%s/deserialize_any/undecided" % rule, "while interpreting: %s" % e)
+    res.floor(rule, "mapkey_cases", 23)
 
 
 # ---- enums -----------------------------------------------------------------------------------------------------------------------------------------
